@@ -158,6 +158,7 @@ func (C04) Explore(x *kernel.Explorer, seed uint64) {
 		plan := &kernel.Plan{Prop: "C04", Seed: kernel.Mix(seed, uint64(i)), Swarm: map[string]int64{
 			"chunk": int64(r.Intn(4)), "colseed": int64(r.Uint32()), "stranger": int64(r.Intn(2)),
 			"mysql": int64(r.Intn(3) / 2), "depeof": int64(r.Intn(2)), "wyield": int64(r.Intn(2))}}
+		plan.Swarm["ksv2"] = int64(r.Intn(3) / 2)
 		if r.Chance(1, 4) {
 			// a key store read fails with an I/O error somewhere in the session
 			plan.Swarm["keyfault"] = int64(1 + r.Intn(40))
@@ -217,7 +218,7 @@ func (C04) Run(t *testing.T, plan *kernel.Plan, keepLog bool) *kernel.Result {
 		rng := kernel.NewRNG(plan.Seed, 0xd04c)
 		cols := drawCols(kernel.NewRNG(uint64(plan.Sw("colseed")), 4), "")
 		pw, err := NewPgWorld(w, rng, PgWorldConfig{SchemaYAML: schemaYAML(cols), Clients: []string{owner, stranger}, ChunkMode: int(plan.Sw("chunk")),
-			KeyFaultNth: int(plan.Sw("keyfault"))})
+			KeyFaultNth: int(plan.Sw("keyfault")), KeystoreV2: plan.Sw("ksv2") == 1})
 		if err != nil {
 			w.Violate("C04", "world-builds", "pg", err.Error())
 			return
